@@ -84,13 +84,16 @@ VARIANTS = ["valid", "valid", "dtype", "shape", "strided", "fortran", "output_kw
 
 def cases(ctx):
     rng = ctx.rng
-    reps = 1 if ctx.tier == "quick" else 8
+    reps = 4 if ctx.tier == "quick" else 16
     for _ in range(reps):
         for name in NAMES:
             for v in VARIANTS:
                 nd = rng.choice(NDS.get(name, (1, 2, 2, 3)))
                 shape = [rng.randint(3, 6) for _ in range(nd)]
-                yield {"fn": name, "variant": v, "shape": shape, "seed": rng.randrange(1 << 30)}
+                # content for which the function may have "nothing to do" (no region on the border, nothing to erode, constant
+                # signal): the complete result must still be written into out
+                yield {"fn": name, "variant": v, "shape": shape, "seed": rng.randrange(1 << 30),
+                       "content": rng.choice(["random", "random", "zeros", "const", "interior"])}
 
 
 def run_case(ctx, case):
@@ -103,6 +106,18 @@ def run_case(ctx, case):
     rng = random.Random(case["seed"])
     args, kw = sp["mk"](rng, case["shape"])
     a = args[0]
+    content = case.get("content", "random")
+    if content == "zeros":
+        a[...] = 0
+    elif content == "const":
+        a[...] = a.reshape(-1)[0]
+    elif content == "interior":
+        for d in range(a.ndim):
+            idx = [slice(None)] * a.ndim
+            idx[d] = 0
+            a[tuple(idx)] = 0
+            idx[d] = -1
+            a[tuple(idx)] = 0
     odt = np.dtype(sp["odt"](a))
     with warnings.catch_warnings():
         warnings.simplefilter("ignore")
